@@ -32,6 +32,7 @@ type strCase struct {
 	Reps []int             `json:"reps"`
 	E2E  bool              `json:"e2e"`
 	Pads []int             `json:"pads"` // end to end through a FILE: the body is preceded (inside the literal) by this many ASCII letters
+	Strad [][]json.RawMessage `json:"strad"` // the same, the letters followed by a multi-byte character that straddles the block boundary: [letters, character]
 }
 
 func symRune(s string, rep, i int) rune {
@@ -108,8 +109,24 @@ func handleStrLit(raw json.RawMessage) interface{} {
 			}
 		}
 		// long literals read from a file: the same body pushed to (and across) the 4096-byte read blocks
+		type padw struct {
+			n int
+			w string
+		}
+		var pws []padw
 		for _, pad := range c.Pads {
-			padding := strings.Repeat("p", pad)
+			pws = append(pws, padw{pad, ""})
+		}
+		for _, st := range c.Strad {
+			var n int
+			var w string
+			if len(st) == 2 && json.Unmarshal(st[0], &n) == nil && json.Unmarshal(st[1], &w) == nil {
+				pws = append(pws, padw{n, w})
+			}
+		}
+		for _, pw := range pws {
+			pad := pw.n
+			padding := strings.Repeat("p", pad) + pw.w
 			text := "输出" + string(src[:1]) + padding + string(src[1:]) + "\n"
 			dir, derr := os.MkdirTemp(os.Getenv("VERIF_SCRATCH"), "strlit-")
 			if derr != nil {
@@ -119,7 +136,7 @@ func handleStrLit(raw json.RawMessage) interface{} {
 			os.WriteFile(path, []byte(text), 0644)
 			o := zn.RunFile(path, nil)
 			os.RemoveAll(dir)
-			fr := map[string]interface{}{"pad": pad, "obs": o.Obs}
+			fr := map[string]interface{}{"pad": pad, "obs": o.Obs, "w": pw.w}
 			if o.Obs == "value" && o.Val["t"] == "str" {
 				got, _ := o.Val["v"].(string)
 				fr["eq"] = got == padding+string(want)
@@ -129,7 +146,7 @@ func handleStrLit(raw json.RawMessage) interface{} {
 			} else {
 				fr["msg"] = lastLine(o.Msg)
 			}
-			r["file_"+strconv.Itoa(pad)] = fr
+			r["file_"+strconv.Itoa(pad)+pw.w] = fr
 		}
 		runs = append(runs, r)
 	}
